@@ -22,6 +22,12 @@ CONFIGS = [
     # the specification with the pinned code's help_transfer / add_count: TLC must find the findings
     ("f6pinned", "MC_Flurry", "MC_f6pinned.cfg", {"C10"}, "ResizeSafe", "thorough", []),
     ("init_pinned", "MC_Flurry", "MC_init_pinned.cfg", {"C10"}, "ResizeSafe", "thorough", []),
+    ("it1", "MC_Flurry", "MC_it1.cfg", {"C07"}, "ok", "quick", ["ItDescend", "ItYield", "XStoreFwd"]),
+    ("it2", "MC_Flurry", "MC_it2.cfg", {"C07", "C10"}, "ok", "quick", ["ItDescend", "ItYield"]),
+    ("it3", "MC_Flurry", "MC_it3.cfg", {"C07"}, "ok", "quick", ["ItYield", "Reval"]),
+    ("it2_mutant", "MC_Flurry", "MC_it2_mutant.cfg", {"C07"}, "IterWeak", "quick", []),
+    ("clr1", "MC_Flurry", "MC_clr1.cfg", {"C05", "C10"}, "ok", "quick", ["ClrReval", "XStoreFwd"]),
+    ("clr2", "MC_Flurry", "MC_clr2.cfg", {"C05", "C07"}, "ok", "quick", ["ClrReval", "ItYield"]),
     ("treelock", "MC_TreeBinLock", "MC_TreeBinLock.cfg", {"C11", "C12", "C01"}, "ok", "quick", ["ContPark", "FindUnpark", "SpuriousWake"]),
     ("treelock_live", "MC_TreeBinLock", "MC_TreeBinLock_live.cfg", {"C11"}, "ok", "quick", []),
     ("treelock_mutant", "MC_TreeBinLock", "MC_TreeBinLock_mutant.cfg", {"C11"}, "NoDeadlock", "quick", []),
@@ -38,7 +44,7 @@ def run_for(pid, tier, workers=6):
             continue
         if ctier == "thorough" and tier != "thorough":
             continue
-        want_cov = bool(must) and pid in ("C01", "C10", "C11")
+        want_cov = bool(must) and pid in ("C01", "C07", "C10", "C11")
         if expect == "sim":
             r = lib.run_tlc(module, cfg=cfg, workers=workers, timeout=1500, simulate=300000, depth=150, xmx="8g")
             if "Error:" in r["out"] and "violated" in r["out"]:
